@@ -212,7 +212,8 @@ def repeat_samples_to_duration(samples, sample_rate, duration):
     The repeated and possibly trimmed sequence.
   """
   sequence_duration = len(samples) / sample_rate
-  num_repeats = int(math.ceil(duration / sequence_duration))
+  # At least one copy, so that a zero duration gives zero samples.
+  num_repeats = max(1, int(math.ceil(duration / sequence_duration)))
   repeated_samples = np.concatenate([samples] * num_repeats)
   trimmed = crop_samples(
       repeated_samples, sample_rate,
